@@ -53,6 +53,35 @@ fn read_all_paths(subj: Subj, bytes: &[u8], max_frames: usize) -> Result<Vec<Fra
     if ka != kb || ka != kc {
         return Err(format!("paths disagree: {} / {} / {} known frames", ka.len(), kb.len(), kc.len()));
     }
+    // short reads: the source hands out 1, 2, 3, 7 or 61 bytes per read (a skipped payload that spans several reads
+    // must still be skipped whole), with and without a Pending before every read
+    for size in [1usize, 2, 3, 7, 61] {
+        let chunks = vec![size; bytes.len() / size + 1];
+        for mask in [0u64, 0x5555_5555_5555_5555] {
+            let mut src = Scripted::new(bytes, &chunks, mask, End::Stall);
+            let d = run_async(subj, &mut src, max_frames, 1 << 16);
+            match &d.fin {
+                Fin::NeedMore | Fin::Stalled | Fin::Done => {}
+                other => return Err(format!("read_frame_async with {size}-byte reads (pending mask {mask:#x}) ended with {other:?}")),
+            }
+            if known_frames(&d) != ka {
+                return Err(format!("read_frame_async with {size}-byte reads (pending mask {mask:#x}) yields {} known frames, whole reads yield {}", known_frames(&d).len(), ka.len()));
+            }
+        }
+        // the sans-IO readers on one stream object, the input growing by `size` bytes
+        let avail: Vec<usize> = (0..=bytes.len()).step_by(size).chain(std::iter::once(bytes.len())).collect();
+        for buffered in [true, false] {
+            if let Some(d) = run_incremental(subj, bytes, &avail, max_frames, buffered) {
+                match &d.fin {
+                    Fin::NeedMore | Fin::Done => {}
+                    other => return Err(format!("incremental sans-IO reader (buffered={buffered}, input growing by {size}) ended with {other:?}")),
+                }
+                if known_frames(&d) != ka {
+                    return Err(format!("incremental sans-IO reader (buffered={buffered}, input growing by {size}) yields {} known frames, whole input yields {}", known_frames(&d).len(), ka.len()));
+                }
+            }
+        }
+    }
     Ok(ka)
 }
 
